@@ -424,9 +424,25 @@ impl<'a> Parser<'a> {
     binop!(parse_pow, parse_unary, {
         Some((Token::Pow, _)) => ast::BinOpKind::Pow,
     });
-    unaryop!(parse_unary_only, parse_primary, {
-        Some((Token::Minus, _)) => ast::UnaryOpKind::Neg,
-    });
+    fn parse_unary_only(&mut self) -> Result<ast::Expr<'a>, Error> {
+        let span = self.stream.current_span();
+        if !matches_token!(self, Token::Minus) {
+            return self.parse_primary();
+        }
+        ok!(self.stream.next());
+        // attribute access, subscripts and calls bind tighter than the
+        // unary minus: `-a.b` is `-(a.b)`.
+        let operand_span = self.stream.current_span();
+        let mut expr = ok!(self.parse_unary_only());
+        expr = ok!(self.parse_postfix(expr, operand_span));
+        Ok(ast::Expr::UnaryOp(Spanned::new(
+            ast::UnaryOp {
+                op: ast::UnaryOpKind::Neg,
+                expr,
+            },
+            self.stream.expand_span(span),
+        )))
+    }
 
     fn parse_unary(&mut self) -> Result<ast::Expr<'a>, Error> {
         let span = self.stream.current_span();
